@@ -8,15 +8,24 @@ from harness.props import argslib as L
 SPEC = os.path.join(T.SPECS, "ArgsParser")
 
 
-def run_sequence(formats, fobjs, reqs, via_command=False):
-    """reqs: list of (format index (1-based), lenient, tokens).  One parser object for the whole sequence."""
+def run_sequence(formats, fobjs, reqs, via_command=False, throwaway=False):
+    """reqs: list of (format index (1-based), lenient, tokens).  One parser object for the whole sequence.
+    throwaway: every request gets a format object of its own that nobody keeps (the long-lived parser outlives the
+    formats it has seen; a later format may even live at the address of an earlier one)"""
+    import gc
+
     from clikit.args import DefaultArgsParser
 
     shared = DefaultArgsParser()
     evs = []
     for k, (fi, lenient, toks) in enumerate(reqs):
         # command-string and argv form alternate: both kinds of raw arguments must survive a parse untouched
-        evs.append(L.event(formats[fi - 1], fobjs[fi - 1], toks, lenient, parser=shared, form="string" if k % 2 == 0 else "argv"))
+        form = "string" if k % 2 == 0 else "argv"
+        if throwaway:
+            evs.append(L.event(formats[fi - 1], L.build_format(formats[fi - 1], bool(k % 2)), toks, lenient, parser=shared, form=form, keep=False))
+            gc.collect()
+        else:
+            evs.append(L.event(formats[fi - 1], fobjs[fi - 1], toks, lenient, parser=shared, form=form))
     return evs
 
 
@@ -79,8 +88,8 @@ def run(ctx):
     for k in range(n):
         reqs = [(ctx.rng.randrange(len(sformats)) + 1, bool(ctx.rng.getrandbits(1)), [ctx.rng.choice(alpha) for _ in range(ctx.rng.randint(0, 5))])
                 for _ in range(ctx.rng.randint(1, 6))]
-        traces.append(run_sequence(sformats, sfobjs, reqs))
-        cases.append({"formats": "soup", "reqs": reqs})
+        traces.append(run_sequence(sformats, sfobjs, reqs, throwaway=(k % 3 == 0)))
+        cases.append({"formats": "soup", "reqs": reqs, "throwaway": k % 3 == 0})
         ctx.count()
         ctx.nontriv(("r", k))
     ctx.sample({"random_sequence": cases[-1]["reqs"]})
